@@ -60,6 +60,7 @@ pub proof fn lemma_lower_latin1_eq(n: Seq<u8>, t: Seq<u8>)
 //@ fn canonical.rs get_content_type_and_charset
 //@ params headers
 //@ props C08 C12
+//@ consumers C01 C02 C13 C15
 //@ ret r
 //@ replace 1 `content_type_opts.split(|c| *c == b';').map(trim_ascii)` => `bytes_split_map_trim(content_type_opts, b';')`
 //   (a `for` over an iterator is desugared to what it means: loop, next(), break on None)
